@@ -5,12 +5,12 @@ from rules import tables as T
 
 
 def run(ctx):
-    LM.flw1_limit_arithmetic(ctx)
-    M.ord2_offset_applied_once(ctx)
-    M.ord13_sort_structure(ctx)
-    M.ord13_top_n_limit_zero(ctx)
-    M.ord16_partials_combined_in_partition_order(ctx)
-    T.tbl13_comparators(ctx)
+    ctx.run(LM.flw1_limit_arithmetic)
+    ctx.run(M.ord2_offset_applied_once)
+    ctx.run(M.ord13_sort_structure)
+    ctx.run(M.ord13_top_n_limit_zero)
+    ctx.run(M.ord16_partials_combined_in_partition_order)
+    ctx.run(T.tbl13_comparators)
     return ctx.finish(
         'MIR dataflow: interprocedural taint of values read from LimitClause fields (the limit may '
         'be the sentinel u64::MAX); no unchecked + / * on such a value and no unchecked subtraction '
